@@ -155,6 +155,23 @@ fn main() {
       if let Ok(f) = std::env::var("VH_TRACE") {
         let _ = tracing_subscriber::fmt().with_env_filter(f).with_writer(std::io::stderr).try_init();
       }
+      // VH_URING_CFG="snd_count,snd_size,rcv_count,rcv_size,zerocopy,multishot": the io_uring backend is
+      // process-global and configured once, so it is set up before any context exists
+      if let Ok(c) = std::env::var("VH_URING_CFG") {
+        let v: Vec<usize> = c.split(',').map(|x| x.trim().parse().unwrap_or(0)).collect();
+        if v.len() == 6 {
+          let mut cfg = rzmq::uring::UringConfig::default();
+          cfg.default_send_buffer_count = v[0];
+          cfg.default_send_buffer_size = v[1];
+          cfg.default_recv_buffer_count = v[2];
+          cfg.default_recv_buffer_size = v[3];
+          cfg.default_send_zerocopy = v[4] != 0;
+          cfg.default_recv_multishot = v[5] != 0;
+          if let Err(e) = rzmq::uring::initialize_uring_backend(cfg) {
+            h::util::tool_error(&format!("io_uring backend: {}", e));
+          }
+        }
+      }
       h::sock::run_file(&args[2], &args[3]);
     }
     "sockscript" => {
